@@ -313,7 +313,7 @@ static int hdr_mode(const std::string& work, const std::string& outpath, int lev
     c.readers = { "img_direct", "img_generic" };
     finish_case(c, "img.hv");
   }
-  if (level > 0) {  // image, 16-bit integers with a scale factor
+  {  // image, 16-bit integers with a scale factor (the library then also writes 'quantification units')
     HdrCase c; c.hid = ++hid; c.kind = "image"; c.dir = mkdir_case("imgs"); c.hdrname = "mut.hv"; c.datafile = "imgs.v";
     VoxelsOnCartesianGrid<float> im(ei, IndexRange3D(0, 1, -1, 1, -3, 2), CartesianCoordinate3D<float>(0, 0, 0), CartesianCoordinate3D<float>(3.F, 2.F, 2.F));
     im.fill(3.F);
